@@ -16,7 +16,11 @@ import (
 	"sort"
 	"time"
 
+	"bytes"
+	"encoding/gob"
+
 	"github.com/DistCompiler/pgo/distsys"
+	"github.com/DistCompiler/pgo/distsys/resources"
 	"github.com/DistCompiler/pgo/distsys/tla"
 	"github.com/DistCompiler/pgo/distsys/trace"
 )
@@ -100,7 +104,17 @@ type procDesc struct {
 	Pre   [][]interface{} `json:"pre"` // [var, value]: the preamble writes
 }
 
+// a non-local resource bound to an archetype ref parameter (EnsureArchetypeRefParam): procedures reach it through
+// by-reference parameters holding its name
+type extDesc struct {
+	Name  string        `json:"name"`
+	Kind  string        `json:"kind"` // local | outchan | inchan
+	Init  interface{}   `json:"init"`
+	Items []interface{} `json:"items"`
+}
+
 type kase struct {
+	Ext      []extDesc                `json:"ext"`
 	ID       int                      `json:"id"`
 	Procs    []procDesc               `json:"procs"`
 	Labels   map[string][]interface{} `json:"labels"`
@@ -116,6 +130,7 @@ type attemptResult struct {
 	PC    interface{}   `json:"pc"`
 	Stack interface{}   `json:"stack"`
 	Vars  []interface{} `json:"vars"` // per watched variable: [value] or [] when the resource does not exist
+	Ext   []interface{} `json:"ext"`  // per non-local resource: what can be seen of it
 	Err   string        `json:"err,omitempty"`
 }
 
@@ -134,6 +149,7 @@ type runner struct {
 	logv    []interface{}
 	logMark int // log length at the start of the attempt (an aborted attempt's log entries are dropped)
 	ctx     *distsys.MPCalContext
+	extSnap []func() interface{}
 }
 
 var errStop = fmt.Errorf("step budget exhausted")
@@ -153,6 +169,10 @@ func (r *runner) snapshot(a *attemptResult) {
 	a.Vars = []interface{}{}
 	for _, w := range r.k.Watch {
 		a.Vars = append(a.Vars, r.readLocal(w))
+	}
+	a.Ext = []interface{}{}
+	for _, f := range r.extSnap {
+		a.Ext = append(a.Ext, f())
 	}
 }
 
@@ -290,6 +310,9 @@ func (r *runner) body(label string) func(distsys.ArchetypeInterface) error {
 			r.logv = r.logv[:r.logMark]
 			return distsys.ErrCriticalSectionAborted
 		}
+		if err == distsys.ErrCriticalSectionAborted {
+			r.logv = r.logv[:r.logMark] // a non-local resource refused (empty input channel)
+		}
 		return err
 	}
 }
@@ -341,7 +364,53 @@ func runCase(k kase) (res result) {
 			}
 		},
 	}
-	r.ctx = distsys.NewMPCalContext(tla.MakeString("self"), arch, distsys.SetTraceRecorder(recorder{r}))
+	cfg := []distsys.MPCalContextConfigFn{distsys.SetTraceRecorder(recorder{r})}
+	for _, e := range k.Ext {
+		e := e
+		switch e.Kind {
+		case "local":
+			l := distsys.NewLocalArchetypeResource(toTLA(e.Init))
+			cfg = append(cfg, distsys.EnsureArchetypeRefParam(e.Name, l))
+			r.extSnap = append(r.extSnap, func() interface{} {
+				st, err := l.GetState()
+				if err != nil {
+					panic(err)
+				}
+				var v tla.Value
+				if err := gob.NewDecoder(bytes.NewBuffer(st)).Decode(&v); err != nil {
+					panic(err)
+				}
+				return fromTLA(v)
+			})
+		case "outchan":
+			ch := make(chan tla.Value, 4096)
+			seen := []interface{}{}
+			cfg = append(cfg, distsys.EnsureArchetypeRefParam(e.Name, resources.NewOutputChan(ch)))
+			r.extSnap = append(r.extSnap, func() interface{} {
+				for {
+					select {
+					case v := <-ch:
+						seen = append(seen, fromTLA(v))
+						continue
+					default:
+					}
+					break
+				}
+				return map[string]interface{}{"t": append([]interface{}{}, seen...)}
+			})
+		case "inchan":
+			ch := make(chan tla.Value, 1024)
+			for _, it := range e.Items {
+				ch <- toTLA(it)
+			}
+			cfg = append(cfg, distsys.EnsureArchetypeRefParam(e.Name, resources.NewInputChan(ch, resources.WithInputChanReadTimeout(3*time.Millisecond))))
+			r.extSnap = append(r.extSnap, func() interface{} { return nil })
+		default:
+			panic("unknown non-local resource kind " + e.Kind)
+		}
+		arch.RequiredRefParams = append(arch.RequiredRefParams, "A."+e.Name)
+	}
+	r.ctx = distsys.NewMPCalContext(tla.MakeString("self"), arch, cfg...)
 	done := make(chan struct{})
 	var runErr error
 	var panicked interface{}
